@@ -89,7 +89,7 @@ struct SIMDVector<std::complex<double>, simd_abi::avx512> {
                                       scalar_value_type num2, scalar_value_type num3,
                                       scalar_value_type num4, scalar_value_type num5,
                                       scalar_value_type num6, scalar_value_type num7) {
-        const scalar_value_type tmp[Size] = {num0,num1,num2,num3,num4,num5,num6,num7};
+        const scalar_value_type tmp[Size] = {num7,num6,num5,num4,num3,num2,num1,num0};
         complex_unaligned_load(tmp);
     }
 
@@ -617,7 +617,7 @@ struct SIMDVector<std::complex<double>, simd_abi::avx> {
     }
     FASTOR_INLINE void set(scalar_value_type num0, scalar_value_type num1,
                                       scalar_value_type num2, scalar_value_type num3) {
-        const scalar_value_type tmp[Size] = {num0,num1,num2,num3};
+        const scalar_value_type tmp[Size] = {num3,num2,num1,num0};
         complex_unaligned_load(tmp);
     }
 
@@ -1131,7 +1131,7 @@ struct SIMDVector<std::complex<double>, simd_abi::sse> {
         value_i = _mm_set1_pd(num.imag());
     }
     FASTOR_INLINE void set(scalar_value_type num0, scalar_value_type num1) {
-        const scalar_value_type tmp[Size] = {num0,num1};
+        const scalar_value_type tmp[Size] = {num1,num0};
         complex_unaligned_load(tmp);
     }
 
